@@ -25,6 +25,21 @@ CLAIMED = {
             "listeners of exception/closed events return normally; one context per request; see evidence.assumptions",
             "contract-based verification: per-path ghost-trace VCs over the interpreted real pipeline (havocked callees fork)",
             "DESIGN.md section 4 C14"),
+    'C09': ("Classification contract fault_to_http_response_code(f) == documented status proved for an arbitrary (symbolic) "
+            "fault code string and every fault class, for each output protocol; fault serialisers proved to carry code and "
+            "message verbatim; funnel/identity/no-leak obligations as per-path VCs over the real process_request / "
+            "handle_error / serialize bodies with the user function and listeners havocked (Fault, non-Fault of several "
+            "shapes), responses decoded by reference decoders.",
+            "z3 sequence theory for startswith/==; concrete representative faults in the pipeline part; traceback mode off",
+            "contract-based deductive verification: VCs over z3 strings from the live AST + per-path trace VCs",
+            "DESIGN.md section 4 C09"),
+    'C11': ("Lookup contract of get_call_handles proved for an arbitrary (symbolic) requested name against a routing table "
+            "with adversarially similar names (exact string equality => no near-miss match); per-operation contract of the "
+            "routing-table insertion over all abstract pre-states; context generation; order independence and near-miss "
+            "requests through the real pipeline (bounded enumeration, labelled).",
+            "z3 sequence theory for '{%s}%s' formatting and dict lookup by equality; concrete service sets",
+            "contract-based deductive verification: VCs over z3 strings from the live AST; case analysis of pre-states",
+            "DESIGN.md section 4 C11"),
 }
 NOT_YET = {}
 for i in range(1, 19):
